@@ -26,6 +26,7 @@ FLAVORS = {
     'asan-dbg5': {'cc': 'gcc', 'flags': BASE_FLAGS + SAN, 'debug': 5},
     'asan-noalign': {'cc': 'gcc', 'flags': BASE_FLAGS + SAN + ['-fno-sanitize=alignment']},
     'plain':     {'cc': 'gcc', 'flags': ['-g', '-O0', '-DHAVE_CONFIG_H', '-D' + GUARD, '-w']},
+    'plain-dbg5': {'cc': 'gcc', 'flags': ['-g', '-O1', '-DHAVE_CONFIG_H', '-D' + GUARD, '-w'], 'debug': 5},
     'cov':       {'cc': 'gcc', 'flags': ['-g', '-O0', '--coverage', '-DHAVE_CONFIG_H', '-D' + GUARD, '-w']},
 }
 ASAN_ENV = {
